@@ -198,8 +198,9 @@ func runC15L2(r *core.Run) (*core.Violation, func() *core.Violation) {
 	nEvents := 1 + r.Choose(3, "knob.events")
 	nReaders := 1 + r.Choose(2, "knob.readers")
 	withCloner := r.Bool(60, "knob.cloner")
-	withCloser := r.Bool(40, "knob.closer")
-	closeBus := r.Bool(25, "knob.closebus")
+	withCloser := r.Bool(50, "knob.closer")
+	closeBus := r.Bool(35, "knob.closebus")
+	secondCloser := r.Bool(50, "knob.closer2")
 	r.Logf("L2 knobs: publishers=%d events=%d readers=%d cloner=%v closer=%v closebus=%v", nPub, nEvents, nReaders, withCloner, withCloser, closeBus)
 	ready := make(chan struct{})
 	client := 0
@@ -255,7 +256,7 @@ func runC15L2(r *core.Run) (*core.Violation, func() *core.Violation) {
 	for rd := 0; rd < nReaders; rd++ {
 		stall := r.Bool(30, "knob.reader-stalls")
 		reads := r.Choose(nReads+1, "knob.reader-reads")
-		closes := withCloser && rd == 0
+		closes := withCloser && (rd == 0 || secondCloser)
 		task(fmt.Sprintf("reader%d", rd), func(c int) {
 			id, sub := subscribe(c)
 			if sub == nil {
@@ -335,6 +336,34 @@ func runC15L2(r *core.Run) (*core.Violation, func() *core.Violation) {
 			}
 			return r.Flag("C15/l2-operation-blocked", "%s by client %d never returned although every goroutine was scheduled fairly for 400 rounds (runnable: %s)", h.in.Kind, h.client, blockedOn), nil
 		}
+	}
+	// a bus whose Close returned has stopped every subscriber; a subscriber whose Close returned is stopped
+	busClosed := false
+	closedSubs := map[int]bool{}
+	for _, h := range x.hist {
+		if h.returned && h.in.Kind == "closebus" {
+			busClosed = true
+		}
+		if h.returned && h.in.Kind == "close" {
+			closedSubs[h.in.Sub] = true
+		}
+	}
+	stopped := func() (int, bool) {
+		for id := 1; id <= x.nsub; id++ {
+			if sub := x.subs[id]; sub != nil && (busClosed || closedSubs[id]) && !isDone(sub.Done()) {
+				return id, false
+			}
+		}
+		return 0, true
+	}
+	loop.drain(200, func() bool { _, ok := stopped(); return ok })
+	s.Settle()
+	if id, ok := stopped(); !ok {
+		what := "its own Close returned"
+		if busClosed {
+			what = "the bus was closed (Close returned)"
+		}
+		return r.Flag("C15/l2-subscriber-left-running", "subscriber %d is still running (Done not signalled) although %s and every goroutine was scheduled fairly", id, what), nil
 	}
 	// hand the recorded history to the linearizability checker (outside the bubble)
 	var ops []porcupine.Operation
